@@ -50,7 +50,7 @@ def showFmt (r : Except Err (List Byte)) : List String :=
 
 def showParse (r : Except Err DateTime) : List String :=
   match r with
-  | .ok dt => [s!"P parse OK {fields dt}", s!"W utc={if dt.utcAssumed then 1 else 0} tz={hexOf (toBytes dt.tz)}"]
+  | .ok dt => [s!"P parse OK {fields dt}", s!"W utc={if dt.utcAssumed then 1 else 0} tz={hexOf (toBytes dt.tz)}", views dt]
   | .error e => [s!"P parse {errName e}"]
 
 def run (t : List String) : List String :=
